@@ -28,7 +28,7 @@ package core
 //@   ensures swf(c) && slen(c) == 0
 
 //@ func conn.Peek
-//@   props C08 C12
+//@   props C01 C02 C08 C12
 //@   modifies bytes.Buffer.glen, bytes.Buffer.gdata
 //@   requires swf(c)
 //@   ensures[short@C08] n > slen(c) ==> buf == nil
@@ -36,7 +36,7 @@ package core
 //@   ensures[data@C08] n <= slen(c) ==> (forall k int :: (0 <= k && k < len(buf)) ==> buf[k] == sat(c, k))
 
 //@ func conn.Discard
-//@   props C08 C12
+//@   props C01 C02 C08 C12
 //@   modifies c.buffer, ring.Buffer.r, ring.Buffer.w, ring.Buffer.isEmpty, elastic.RingBuffer.rb
 //@   requires swf(c)
 //@   ensures[wf] swf(c)
@@ -67,10 +67,11 @@ package core
 //@   ensures result != nil ==> result.intree && result.Peer != nil && result.Owner != nil
 
 //@ func pushToTimeoutQueue
-//@   flags trusted
+//@   props C16
+//@   requires msg != nil && timeoutTree != nil
 //@   modifies time.Time.wall, time.Time.ext, time.Time.loc, msg.intree
-//@   ensures (timeout > 0 && msg.Owner != nil && msg.Peer != nil) ==> msg.intree
-//@   ensures !(timeout > 0 && msg.Owner != nil && msg.Peer != nil) ==> msg.intree == old(msg.intree)
+//@   ensures[armed@C16] (timeout > 0 && msg.Owner != nil && msg.Peer != nil) ==> msg.intree
+//@   ensures[same] !(timeout > 0 && msg.Owner != nil && msg.Peer != nil) ==> msg.intree == old(msg.intree)
 
 //@ func Frag.slowLogCheck
 //@   flags trusted pure
@@ -113,7 +114,7 @@ package core
 //@ func conn.enqueueInFrag
 //@   props C10 C16
 //@   modifies iq(c).head, iq(c).tail, iq(c).count, frag.next, frag.prev, old(iq(c).tail).prev, time.Time.wall, time.Time.ext, time.Time.loc, frag.intree
-//@   requires iq(c) != nil && fwf(iq(c)) && frag != nil && fnotin(iq(c), frag) && c.loop != nil && c.loop.engine != nil && c.loop.engine.opts != nil
+//@   requires iq(c) != nil && fwf(iq(c)) && frag != nil && fnotin(iq(c), frag) && c.loop != nil && c.loop.engine != nil && c.loop.engine.opts != nil && timeoutTree != nil
 //@   ensures[count] iq(c).count == old(iq(c).count) + 1
 //@   ensures[keep] forall i int :: 0 <= i && i < old(iq(c).count) ==> fq(iq(c), i) == old(fq(iq(c), i))
 //@   ensures[last] qnth_unfold(heap(Frag.prev), iq(c).head, old(iq(c).count)) && fq(iq(c), old(iq(c).count)) == frag
@@ -126,8 +127,8 @@ package core
 //@ define moved(c) = old(oq(c).count) - oq(c).count
 
 //@ func conn.handleWriteSignal
-//@   props C10
-//@   requires c.loop != nil && c.loop.engine != nil && c.loop.engine.opts != nil
+//@   props C10 C16
+//@   requires c.loop != nil && c.loop.engine != nil && c.loop.engine.opts != nil && timeoutTree != nil
 //@   requires hwsok(c) ==> (fwf(oq(c)) && iq(c) != nil && iq(c) != oq(c) && fwf(iq(c)) && qdisj(iq(c), oq(c)))
 //@   ensures[same] c.opened ==> old(c.opened) && oq(c) == old(oq(c)) && iq(c) == old(iq(c))
 //@   ensures[drained@C10] hwsok(c) ==> oq(c).count == 0 && iq(c).count == old(iq(c).count) + old(oq(c).count) && fwf(oq(c)) && fwf(iq(c))
